@@ -1,10 +1,13 @@
 package eng
 
 import (
+	"bytes"
+	"encoding/json"
 	"fmt"
 	"github.com/Oudwins/zog/i18n/en"
 	"github.com/Oudwins/zog/zhttp"
 	"net/http"
+	"net/url"
 	"reflect"
 	"regexp"
 	"runtime"
@@ -122,11 +125,17 @@ type execSpec struct {
 	fmtTag   *string
 	ctxVals  map[string]any // what this call passes through WithCtxValue
 	optTerms []string       // the options as model terms, in the order passed
-	factory  func() any // history steps only: a front-end request whose body cannot be decoded
+	factory  func() any     // history steps only: a front-end request whose body cannot be decoded
 }
 
 // sharedCtxOpt is one option value reused by calls of every case (options are values a program may keep).
 var sharedCtxOpt = z.WithCtxValue("k8", "shared")
+
+var sharedFmtOpt = z.WithIssueFormatter(func(i *z.ZogIssue, _ z.Ctx) {
+	if i.Code != "required" {
+		i.SetMessage("S:" + i.Code)
+	}
+})
 
 func (g *Gen) execSpec() *execSpec { return g.execSpecFor(g.Schema()) }
 
@@ -169,7 +178,15 @@ func (g *Gen) execSpecFor(n *Node) *execSpec {
 		tag := fmt.Sprintf("F%d:", g.R.Intn(100))
 		e.fmtTag = &tag
 		e.opts = append(e.opts, z.WithIssueFormatter(func(i *z.ZogIssue, c z.Ctx) { i.SetMessage(tag + i.Code) }))
-		e.optTerms = append(e.optTerms, "OFmt "+CoqStr(tag))
+		e.optTerms = append(e.optTerms, "OFmt "+CoqStr(tag)+" None")
+	}
+	if g.R.Fork(0xf0f0).P(25) {
+		// a formatter option kept by the program and passed to many calls; it leaves `required` issues without a
+		// message (they stay without one: a formatter is not chained to the one it replaced)
+		e.opts = append(e.opts, sharedFmtOpt)
+		e.optTerms = append(e.optTerms, `OFmt "S:" (Some "required")`)
+		tag := "S:"
+		e.fmtTag = &tag
 	}
 	return e
 }
@@ -488,6 +505,53 @@ func (g *Gen) SharedSpec(k int) *ExecSpec {
 		if g.R.P(20) {
 			tag := fmt.Sprintf("F%d:", g.R.Intn(100))
 			e.opts = append(e.opts, z.WithIssueFormatter(func(i *z.ZogIssue, c z.Ctx) { i.SetMessage(tag + i.Code) }))
+		}
+		s.variants = append(s.variants, e)
+	}
+	return s
+}
+
+// FrontEndSpec: one struct schema shared by requests of both url-encoded front ends (form bodies and
+// query strings, whose tags name the fields differently) and by JSON bodies; each variant is a
+// request of its own.
+func (g *Gen) FrontEndSpec(k int) *ExecSpec {
+	n := &Node{Kind: KStruct}
+	for _, key := range []string{"name", "email", "city", "team"} {
+		f := Field{Key: key, Node: &Node{Kind: KString, Req: &TestSpec{}}, Tags: map[string]string{"form": "f_" + key, "query": "q_" + key, "json": "j_" + key}}
+		n.Fields = append(n.Fields, f)
+	}
+	s := &ExecSpec{node: n, schemaP: Build(nil, n, false)}
+	for i := 0; i < k; i++ {
+		vals := map[string]string{}
+		for _, f := range n.Fields {
+			if g.R.P(80) {
+				vals[f.Key] = fmt.Sprintf("%s-%d", f.Key, g.R.Intn(1000))
+			}
+		}
+		kind := i % 3
+		e := &execSpec{node: n, schema: s.schemaP, t: TypeOf(n), dest0: reflect.Zero(TypeOf(n))}
+		e.factory = func() any {
+			q := url.Values{}
+			for key, v := range vals {
+				q.Set(map[int]string{0: "f_", 1: "q_", 2: "j_"}[kind]+key, v)
+			}
+			var r *http.Request
+			switch kind {
+			case 0:
+				r, _ = http.NewRequest("POST", "http://example.com/p", strings.NewReader(q.Encode()))
+				r.Header.Set("Content-Type", "application/x-www-form-urlencoded")
+			case 1:
+				r, _ = http.NewRequest("GET", "http://example.com/p?"+q.Encode(), nil)
+			default:
+				m := map[string]string{}
+				for key, v := range vals {
+					m["j_"+key] = v
+				}
+				b, _ := json.Marshal(m)
+				r, _ = http.NewRequest("POST", "http://example.com/p", bytes.NewReader(b))
+				r.Header.Set("Content-Type", "application/json")
+			}
+			return zhttp.Request(r)
 		}
 		s.variants = append(s.variants, e)
 	}
